@@ -452,6 +452,20 @@ def recipes():
     add("gate", ["GENO"], lambda r, x: ((CN, (0, 1)), {}))
     add("gate", ["GENO"], lambda r, x: ((ints(r, (2, 2), True), 3), {"which": "upper", "contract": True}))
     add("gate_simple", ["GENO"], lambda r, x: ((CN, (0, 1)), {"gauges": {}}))
+    # ---- non-default options that pick another branch of the same pair (every `reduced` mode of the bond compression,
+    # reached without the tree gauge; the difference of two networks whose bond names / arrays are shared)
+    for red in (True, False, "left", "right"):
+        add("compress_all", ["TREE", "MPS"], lambda r, x, red=red: ((), {"max_bond": 2, "canonize": False, "reduced": red}))
+        add("compress_all", ["PEPS"], lambda r, x, red=red: ((), {"max_bond": 1, "canonize": False, "reduced": red, "absorb": "left"}))
+    add("compress_all", ["TREE"], lambda r, x: ((), {"max_bond": 2, "mode": "virtual-tree"}))
+    add("compress_all", ["TREE"], lambda r, x: ((), {"max_bond": 2, "tree_gauge_distance": 1, "mode": "basic"}))
+    for neg in (False, True):
+        add("add_MPS", ["MPS", "MPS_NOBOND"], lambda r, x, neg=neg: ((x.copy(),), {"negate": neg}))
+        add("add_MPS", ["MPS"], lambda r, x, neg=neg: ((qtn.MPS_rand_state(4, 2, seed=sd(r), dtype="complex128"),), {"negate": neg, "compress": True, "cutoff": 1e-12}))
+        add("add_MPO", ["MPO"], lambda r, x, neg=neg: ((x.conj(),), {"negate": neg}))
+    # (the 2D spellings take no `negate`)
+    add("add_PEPS", ["PEPS"], lambda r, x: ((x * 2.0,), {}))
+    add("add_PEPO", ["PEPO"], lambda r, x: ((x.conj(),), {}))
     return S
 
 
@@ -966,6 +980,566 @@ def transposition_correspondence(ctx):
         ctx.violation("transpose:data", "Tensor.transpose does not move the data as the labelled model requires", info[c])
 
 
+# ----------------------------------------------------------------------------
+# (d) arrays produced under other labels: Tensor.transpose_like and the in-place pair functions
+
+
+def _codes(namer, labels):
+    return tm.nlist([namer(l) for l in labels])
+
+
+def transpose_like_correspondence(ctx):
+    """exact (integer data, in Coq): `Tensor.transpose_like(other)` / `transpose_like_` against coq/C03/Model.v
+    `like_order` (label order picked, one label may differ) and `transpose_data (perm_like src nix)` (where the data
+    goes), for every pair of stored label orders up to rank 3 (rank 4 sampled); two differing labels must be rejected
+    exactly where the model returns None."""
+    import quimb.tensor as qtn
+
+    rng = np.random.default_rng(ctx.seed + 17)
+    cases, info, cid = [], {}, 0
+    todo = []
+    for rank in (1, 2, 3):
+        for src in itertools.permutations(range(rank)):
+            for dst in itertools.permutations(range(rank)):
+                for ndiff in (0, 1, 2):
+                    if ndiff <= rank:
+                        todo.append((rank, src, dst, ndiff))
+    perms4 = list(itertools.permutations(range(4)))
+    for _ in range(ctx.n(30, 300)):
+        todo.append((4, perms4[int(rng.integers(24))], perms4[int(rng.integers(24))], int(rng.integers(3))))
+    for rank, src, dst, ndiff in todo:
+        labels = "abcd"[:rank]
+        shape0 = tuple(int(rng.integers(1, 4)) for _ in range(rank))
+        src_inds = tuple(labels[p] for p in src)
+        shape = tuple(shape0[p] for p in src)
+        dst_inds = [labels[p] for p in dst]
+        # `ndiff` labels of `other` are foreign to the tensor
+        for k, pos in enumerate(rng.permutation(rank)[:ndiff]):
+            dst_inds[int(pos)] = "yz"[k]
+        dst_inds = tuple(dst_inds)
+        arr = ints(rng, shape, True)
+        inplace = bool(rng.integers(2))
+        t = qtn.Tensor(arr.copy(), src_inds)
+        other = qtn.Tensor(np.zeros((1,) * rank), dst_inds)
+        namer = tm.Namer()
+        SRC, DST = _codes(namer, src_inds), _codes(namer, dst_inds)
+        cid += 1
+        info[cid] = {"self_inds": src_inds, "other_inds": dst_inds, "shape": shape, "inplace_spelling": inplace}
+        ctx.count(("transpose_like", rank, src, dst, ndiff, inplace), rank > 1 and src_inds != dst_inds)
+        ctx.bump(f"transpose_like_labels_differing_{ndiff}")
+        try:
+            r = t.transpose_like_(other) if inplace else t.transpose_like(other)
+            r = t if r is None else r
+        except ValueError:
+            cases.append((cid, f"match like_order {SRC} {DST} with None => true | Some _ => false end"))
+            continue
+        cases.append((cid,
+                      f"match like_order {SRC} {DST} with None => false | Some nix => natlist_eqb nix {_codes(namer, r.inds)}"
+                      f" && glist_eqb (transpose_data (perm_like {SRC} nix) {tm.nlist(shape)} {tm.glist(arr)}) {tm.glist(np.asarray(r.data))}"
+                      f" && natlist_eqb (permute 1%nat (perm_like {SRC} nix) {tm.nlist(shape)}) {tm.nlist(r.shape)} end"))
+    header = tm.HEADER + "From QV Require Import C03.Model.\n"
+    failed, errors = ctx.coq_cases("transpose_like", header, cases, shard=40)
+    for path, err in errors:
+        ctx.broken_obligation("correspondence:transpose_like:" + path.split("/")[-1], err)
+    for c in failed[:4]:
+        ctx.violation("transpose_like:order_or_data", "Tensor.transpose_like does not pick the label order / move the data as the "
+                      "labelled model requires", info[c])
+
+
+def _coq_cases_dedup(ctx, name, header, cases, shard=150):
+    """ctx.coq_cases, evaluating each distinct expression once (many drawn cases give the same small expression);
+    every case id whose expression fails is reported"""
+    by_expr = {}
+    for cid, expr in cases:
+        by_expr.setdefault(expr, []).append(cid)
+    reps = [(ids[0], expr) for expr, ids in by_expr.items()]
+    failed, errors = ctx.coq_cases(name, header, reps, shard=shard)
+    rep_ids = {ids[0]: ids for ids in by_expr.values()}
+    ctx.traces += len(cases) - len(reps)
+    ctx.extra.setdefault("distinct_coq_expressions", {})[name] = {"cases": len(cases), "distinct": len(reps)}
+    return [c for f in failed for c in rep_ids.get(f, [f])], errors
+
+
+class _Capture:
+    """snapshots (labels, array copy) of every Tensor handed back by tensor_split / tensor_contract / Tensor.__matmul__
+    while active: the labelled arrays an in-place pair function can install"""
+
+    def __init__(self):
+        self.snaps = []
+
+    def _snap(self, out):
+        import quimb.tensor as qtn
+
+        for t in tn_like(out):
+            for u in ([t] if isinstance(t, qtn.Tensor) else list(t.tensors)):
+                self.snaps.append((tuple(u.inds), np.array(u.data, copy=True)))
+        return out
+
+    def __enter__(self):
+        import quimb.tensor as qtn
+        import quimb.tensor.tensor_core as tc
+
+        self._orig = (tc.tensor_split, tc.tensor_contract, qtn.Tensor.__matmul__)
+        split, contract, matmul = self._orig
+        cap = self
+
+        def tensor_split(*a, **kw):
+            return cap._snap(split(*a, **kw))
+
+        def tensor_contract(*a, **kw):
+            return cap._snap(contract(*a, **kw))
+
+        def __matmul__(self, other):
+            return cap._snap(matmul(self, other))
+
+        tc.tensor_split, tc.tensor_contract, qtn.Tensor.__matmul__ = tensor_split, tensor_contract, __matmul__
+        return self
+
+    def __exit__(self, *exc):
+        import quimb.tensor as qtn
+        import quimb.tensor.tensor_core as tc
+
+        tc.tensor_split, tc.tensor_contract, qtn.Tensor.__matmul__ = self._orig
+        return False
+
+    def installed_from(self, x):
+        """(labels of the last captured array that IS x's stored array up to a unique axis permutation, that permutation)"""
+        xd = np.asarray(x.data)
+        for inds, data in reversed(self.snaps):
+            if data.ndim != xd.ndim or len(set(inds) ^ set(x.inds)) > 2 or sorted(data.shape) != sorted(xd.shape):
+                continue
+            found = [pi for pi in itertools.permutations(range(xd.ndim))
+                     if tuple(data.shape[p] for p in pi) == xd.shape and np.array_equal(np.transpose(data, pi), xd)]
+            if len(found) == 1:
+                return inds, found[0]
+            if found:
+                return None
+        return None
+
+
+def _trunc(m, k):
+    u, s, vh = np.linalg.svd(m, full_matrices=False)
+    return (u[:, :k] * s[:k]) @ vh[:k]
+
+
+def pair_functions(ctx):
+    """The in-place functions acting on two bonded tensors (tensor_compress_bond in every `reduced` mode and `absorb`
+    choice, reached directly and through compress_between / compress_all[_]; tensor_canonize_bond; tensor_balance_bond)
+    under EVERY stored axis order of both tensors.
+    (1) correspondence, exact, in Coq: the array finally stored in each tensor is the array a split / contraction handed
+        back, moved by exactly the axis permutation `perm_like produced_labels stored_labels` of coq/C03/Model.v
+        (theorem C03_install_like_same_tensor says this - and only this - keeps the labelled tensor);
+    (2) oracle - a TEST, not a theorem (floating point SVD, compared at tolerance): stored labels untouched, every label
+        has one size on both tensors, the pair's dense value equals an independent numpy reference (optimal rank-k
+        truncation of the product / of the one factor for reduced='left'|'right'; the unchanged product for canonize
+        and balance), the side that `absorb` leaves isometric is isometric."""
+    import quimb.tensor as qtn
+
+    rng = np.random.default_rng(ctx.seed + 21)
+    MODES = [True, False, "left", "right", "lazy"]
+    ABSORBS = ["both", "left", "right", None]
+    K = 2
+    sizes = {"a": 3, "b": 4, "g": 2, "c": 5, "d": 6, "e": 2, "f": 3}
+    SHAPES = [(("a", "b"), ("d", "e")), (("a",), ("d", "e")), (("a", "b"), ("d",)), (("b",), ("d",))]
+    if not ctx.quick:
+        SHAPES += [(("a", "b", "g"), ("d",)), (("a",), ("d", "e", "f"))]
+    cases, info, cid = [], {}, 0
+    header = tm.HEADER + "From QV Require Import C03.Model.\n"
+
+    def dense_pair(ta, tb, lix, rix, sv=None):
+        a = np.transpose(np.asarray(ta.data), [ta.inds.index(l) for l in (*lix, "c")])
+        b = np.transpose(np.asarray(tb.data), [tb.inds.index(l) for l in ("c", *rix)])
+        if sv is not None:
+            # absorb=None: the singular values are handed back separately (info["singular_values"])
+            a = a * np.asarray(sv)
+        return np.tensordot(a, b, axes=(-1, 0))
+
+    for lix, rix in SHAPES:
+        A0 = rng.normal(size=[sizes[l] for l in (*lix, "c")])
+        B0 = rng.normal(size=[sizes[l] for l in ("c", *rix)])
+        L, R, D = int(np.prod(A0.shape[:-1])), int(np.prod(B0.shape[1:])), sizes["c"]
+        P = np.tensordot(A0, B0, axes=(-1, 0))
+        Am, Bm = A0.reshape(L, D), B0.reshape(D, R)
+        outshape = P.shape
+        REF = {True: _trunc(P.reshape(L, R), K).reshape(outshape), "left": (_trunc(Am, K) @ Bm).reshape(outshape),
+               "right": (Am @ _trunc(Bm, K)).reshape(outshape), "same": P}
+        REF[False] = REF[True]
+        orders_a = list(itertools.permutations((*lix, "c")))
+        orders_b = list(itertools.permutations(("c", *rix)))
+        if len(orders_a) * len(orders_b) > 40:
+            pairs = [(orders_a[int(rng.integers(len(orders_a)))], orders_b[int(rng.integers(len(orders_b)))]) for _ in range(ctx.n(12, 40))]
+        else:
+            pairs = [(oa, ob) for oa in orders_a for ob in orders_b]
+        for oa, ob in pairs:
+            pa, pb = oa.index("c"), ob.index("c")
+            lay = ("left_bond_last" if pa == len(oa) - 1 else "left_bond_not_last") + ":" + ("right_bond_first" if pb == 0 else "right_bond_not_first")
+            calls = [("tensor_compress_bond", m) for m in MODES] + [("tensor_canonize_bond", None), ("tensor_balance_bond", None)]
+            for fn, mode in calls:
+                absorb = ABSORBS[int(rng.integers(4))] if fn == "tensor_compress_bond" else ["right", "left", "both"][int(rng.integers(3))]
+                if fn == "tensor_compress_bond":
+                    entries = ["function", "compress_between"] + (["compress_all", "compress_all_"] if mode in (True, False, "lazy") and absorb in ("both", None) else [])
+                    entry = entries[int(rng.integers(len(entries)))]
+                elif fn == "tensor_canonize_bond":
+                    entry = ["function", "canonize_between"][int(rng.integers(2))]
+                else:
+                    entry = "function"
+                # reduced="lazy" factorises with a randomised range finder ("isvd"): only its untruncated result is
+                # determined by the labelled content, so that mode is run at full bond
+                kmb = D if mode == "lazy" else K
+                ta = qtn.Tensor(A0.copy(), (*lix, "c"), tags="A").transpose(*oa)
+                tb = qtn.Tensor(B0.copy(), ("c", *rix), tags="B").transpose(*ob)
+                tn = qtn.TensorNetwork([ta, tb], virtual=True)
+                fp0 = fingerprint(tn)
+                mkey = f"reduced={mode}" if fn == "tensor_compress_bond" else f"absorb={absorb}"
+                desc = {"function": fn, "entry": entry, "reduced": mode, "absorb": absorb, "max_bond": kmb if fn == "tensor_compress_bond" else None,
+                        "left_stored_inds": oa, "right_stored_inds": ob, "sizes": {l: sizes[l] for l in (*lix, "c", *rix)},
+                        "data": f"np.random.default_rng({ctx.seed + 21}).normal (see harness/c03.py pair_functions)"}
+                ctx.count(("pair", fn, str(mode), absorb, entry, oa, ob), lay != "left_bond_last:right_bond_first")
+                ctx.bump(f"pair_{fn}_{lay}")
+                out, sinfo = tn, {}
+                try:
+                    with _Capture() as cap:
+                        if entry == "function" and fn == "tensor_compress_bond":
+                            qtn.tensor_compress_bond(ta, tb, reduced=mode, absorb=absorb, max_bond=kmb, info=sinfo)
+                        elif entry == "compress_between":
+                            tn.compress_between("A", "B", max_bond=kmb, reduced=mode, absorb=absorb, info=sinfo)
+                        elif entry == "compress_all":
+                            out = tn.compress_all(max_bond=kmb, canonize=False, reduced=mode, absorb=absorb, info=sinfo)
+                        elif entry == "compress_all_":
+                            tn.compress_all_(max_bond=kmb, canonize=False, reduced=mode, absorb=absorb, info=sinfo)
+                        elif entry == "function" and fn == "tensor_canonize_bond":
+                            qtn.tensor_canonize_bond(ta, tb, absorb=absorb)
+                        elif entry == "canonize_between":
+                            tn.canonize_between("A", "B", absorb=absorb)
+                        else:
+                            qtn.tensor_balance_bond(ta, tb)
+                except Exception as e:
+                    ctx.violation(f"raises:{fn}:{mkey}:{lay}", f"{fn} ({entry}) raised {type(e).__name__} for this stored axis order",
+                                  {**desc, "error": str(e)[:150]})
+                    continue
+                if entry == "compress_all" and fingerprint(tn) != fp0:
+                    ctx.violation(f"mutates:TensorNetwork.compress_all:{mkey}", "plain compress_all changed its receiver", desc)
+                xa, xb = out["A"], out["B"]
+                # ---- (2) oracle
+                k = min(kmb, L, R) if fn == "tensor_compress_bond" else sizes["c"]
+                if fn == "tensor_canonize_bond":
+                    # the bond of a canonized pair is min(bond, outer size of the side made isometric)
+                    k = {"right": min(D, L), "left": min(D, R), "both": xa.ind_size("c")}[absorb]
+                want = {l: sizes[l] for l in (*lix, *rix)}
+                want["c"] = k
+                if xa.inds != oa or xb.inds != ob:
+                    ctx.violation(f"labels:{fn}:{mkey}:{lay}", f"{fn} changed the stored label order of a tensor it updates in place",
+                                  {**desc, "left_inds_after": xa.inds, "right_inds_after": xb.inds})
+                    continue
+                got = [(x.inds, tuple(x.shape)) for x in (xa, xb)]
+                if any(x.shape != tuple(want[l] for l in x.inds) for x in (xa, xb)):
+                    ctx.violation(f"axis_order:{fn}:{mkey}:{lay}", f"after {fn} ({entry}) a label has different sizes on the two tensors / the "
+                                  f"compressed bond sits on the wrong axis: {got}, expected sizes {want}", {**desc, "inds_shapes_after": got})
+                    bad_value = True
+                else:
+                    ref = REF[mode] if (fn == "tensor_compress_bond" and mode != "lazy") else REF["same"]
+                    sv = sinfo.get("singular_values") if (fn == "tensor_compress_bond" and absorb is None) else None
+                    val = dense_pair(xa, xb, lix, rix, sv)
+                    tol = 1e-6 if mode == "lazy" else 1e-9
+                    bad_value = not np.allclose(val, ref, atol=tol * max(1.0, float(np.abs(ref).max())), rtol=0)
+                    if bad_value:
+                        ctx.violation(f"axis_order:{fn}:{mkey}:{lay}", f"{fn} ({entry}): the labelled value of the updated pair differs from the "
+                                      "numpy reference for this stored axis order (max abs err "
+                                      f"{float(np.abs(val - ref).max()):.3g})", desc)
+                    iso = None
+                    if fn == "tensor_compress_bond":
+                        iso = {"right": xa if mode in (True, False, "left", "lazy") else None,
+                               "left": xb if mode in (True, False, "right", "lazy") else None}.get(absorb)
+                    elif fn == "tensor_canonize_bond" and absorb in ("left", "right"):
+                        iso = xa if absorb == "right" else xb
+                    if iso is not None and not bad_value:
+                        m = np.moveaxis(np.asarray(iso.data), iso.inds.index("c"), -1).reshape(-1, k)
+                        if not np.allclose(m.conj().T @ m, np.eye(k), atol=1e-6 if mode == "lazy" else 1e-9):
+                            ctx.violation(f"isometry:{fn}:{mkey}:absorb={absorb}:{lay}", f"{fn}: the tensor that absorb={absorb!r} leaves isometric is not", desc)
+                        ctx.bump("pair_isometry_checked")
+                # ---- (1) which captured array was installed, moved by which axis permutation
+                for side, x in (("left", xa), ("right", xb)):
+                    obs = cap.installed_from(x)
+                    if obs is None:
+                        ctx.bump("pair_install_not_observable")
+                        continue
+                    src, pi = obs
+                    namer = tm.Namer()
+                    cid += 1
+                    info[cid] = {**desc, "side": side, "produced_under_labels": src, "stored_labels": x.inds, "axis_permutation_applied": pi,
+                                 "key": f"install:{fn}:{mkey}:{lay}"}
+                    cases.append((cid, f"match like_order {_codes(namer, src)} {_codes(namer, x.inds)} with None => false | Some nix => "
+                                       f"natlist_eqb (perm_like {_codes(namer, src)} nix) {tm.nlist(pi)} end"))
+                    ctx.bump("pair_install_observed")
+    failed, errors = _coq_cases_dedup(ctx, "pair_install", header, cases, shard=150)
+    for path, err in errors:
+        ctx.broken_obligation("correspondence:pair_install:" + path.split("/")[-1], err)
+    for c in failed:
+        d = dict(info[c])
+        ctx.violation(d.pop("key"), f"{d['function']} stores an array that was produced under the labels {d['produced_under_labels']} under its "
+                      f"own labels {d['stored_labels']} moved by the axis permutation {d['axis_permutation_applied']}, not by the one that keeps "
+                      "the labelled tensor (model: perm_like)", d)
+
+
+# ----------------------------------------------------------------------------
+# (e) operators between networks (not (f, f_) pairs, so invisible to the reflection above)
+
+
+def _net_kinds(rng):
+    """classes that carry `+`/`-` (TensorNetworkGen and below): name -> builder(seed)"""
+    import quimb.tensor as qtn
+
+    edges = [(0, 1), (1, 2), (2, 0), (2, 3)]
+
+    def product_mps(seed):
+        r = np.random.default_rng(seed)
+        p = qtn.MPS_computational_state("0110", dtype="complex128")
+        p.squeeze_()
+        for t in p:
+            t.modify(data=np.asarray(t.data) + r.integers(1, 4, size=t.shape))
+        return p
+
+    return {
+        "MPS": lambda s: qtn.MPS_rand_state(4, 3, seed=s, dtype="complex128"),
+        "MPO": lambda s: qtn.MPO_rand_herm(4, 2, seed=s),
+        "PEPS": lambda s: qtn.PEPS.rand(2, 2, 2, seed=s),
+        "PEPO": lambda s: qtn.PEPO.rand(2, 2, 2, seed=s),
+        "PEPS3D": lambda s: qtn.PEPS3D.rand(1, 2, 2, 2, seed=s),
+        "GENV": lambda s: qtn.TN_from_edges_rand(edges, D=2, phys_dim=2, seed=s),
+        "GENO": lambda s: qtn.TN_from_edges_rand(edges, D=2, phys_dim=2, seed=s, site_ind_id=("k{}", "b{}")),
+        "MPS_PRODUCT_NO_BONDS": product_mps,
+    }
+
+
+RELATIONS = ["independent", "copy_shared_bond_names", "derived_shared_bond_names", "some_bond_names_shared", "same_object",
+             "independent_axis_permuted", "derived_axis_permuted"]
+
+
+def _second_operand(rel, a, build, rng):
+    sd = int(rng.integers(1 << 30))
+    if rel == "independent":
+        return build(sd)
+    if rel == "copy_shared_bond_names":
+        return a.copy()
+    if rel == "derived_shared_bond_names":
+        b = a.copy()
+        for t in b:
+            t.modify(data=np.asarray(t.data) * float(rng.integers(2, 4)))
+        return b.conj() if rng.integers(2) else b
+    if rel == "some_bond_names_shared":
+        b = build(sd)
+        inner_a, inner_b = sorted(a.inner_inds()), sorted(b.inner_inds())
+        # same geometry: give b the bond names of a on every other bond (matched through the tensors' tags)
+        amap = {frozenset(frozenset(a.tensor_map[t].tags) for t in a.ind_map[ix]): ix for ix in inner_a}
+        ren = {}
+        for j, ix in enumerate(inner_b):
+            key = frozenset(frozenset(b.tensor_map[t].tags) for t in b.ind_map[ix])
+            if j % 2 == 0 and key in amap:
+                ren[ix] = amap[key]
+        return b.reindex(ren)
+    if rel == "same_object":
+        return a
+    if rel == "independent_axis_permuted":
+        return permute_axes(build(sd), rng)
+    if rel == "derived_axis_permuted":
+        return permute_axes(a.copy(), rng)
+    raise ValueError(rel)
+
+
+def _dense_sorted(tn):
+    c = canon(tn)
+    return c[1], c[2]
+
+
+class _WriteLog:
+    """every Tensor.modify while active: the object written (kept alive so that ids stay unique)"""
+
+    def __enter__(self):
+        import quimb.tensor as qtn
+
+        self.objs = []
+        self._orig = qtn.Tensor.modify
+        orig, log = self._orig, self.objs
+
+        def modify(self_, **kw):
+            if not any(o is self_ for o in log):
+                log.append(self_)
+            return orig(self_, **kw)
+
+        qtn.Tensor.modify = modify
+        return self
+
+    def __exit__(self, *exc):
+        import quimb.tensor as qtn
+
+        qtn.Tensor.modify = self._orig
+        return False
+
+
+def network_sum(ctx):
+    """`a + b`, `a - b`, `a += b`, `a -= b`, add_MPS/add_MPO/add_PEPS/add_PEPO[_](b, negate=...) and
+    tensor_network_ag_sum(a, b, negate=, inplace=) on every structured class, for every relation of b to a that decides
+    whether the operands share bond names / arrays / tensor objects / stored axis orders.
+    (1) correspondence, exact, in Coq: the owners (first operand / second operand / result) of the tensor objects the
+        call writes, in order of first write, against `filter visible (agsum_writes inplace nsites negate)`;
+    (2) oracle (value at tolerance against numpy on the dense vectors - a TEST): both operands, copies sharing their
+        arrays, untouched (the left one is the result for the in-place spellings); dense(result) = dense(a) +- dense(b)
+        over the same outer labels; no tensor object of the result belongs to an operand; the same call a second time
+        gives the same value."""
+    import quimb.tensor as qtn
+
+    rng = np.random.default_rng(ctx.seed + 31)
+    kinds = _net_kinds(rng)
+    METHOD = {"MPS": "add_MPS", "MPS_PRODUCT_NO_BONDS": "add_MPS", "MPO": "add_MPO", "PEPS": "add_PEPS", "PEPO": "add_PEPO"}
+    cases, info, cid = [], {}, 0
+    header = tm.HEADER + "From QV Require Import C03.Model.\n"
+    reps = ctx.n(1, 6)
+    for kind, build in kinds.items():
+        for rel in RELATIONS:
+            for negate in (False, True):
+                for rep in range(reps):
+                    # (add_PEPS / add_PEPO take no `negate` argument)
+                    has_method = kind in METHOD and (not negate or METHOD[kind] in ("add_MPS", "add_MPO"))
+                    spellings = ["operator", "ioperator", "function", "function_inplace"] + (["method", "method_"] if has_method else [])
+                    for spelling in spellings if not ctx.quick else [spellings[int(rng.integers(len(spellings)))], "operator"]:
+                        inplace = spelling in ("ioperator", "function_inplace", "method_")
+                        a = build(int(rng.integers(1 << 30)))
+                        b = _second_operand(rel, a, build, rng)
+                        same = b is a
+                        desc = {"class": kind, "b_is": rel, "negate": negate, "spelling": spelling, "nsites": a.num_tensors}
+                        ctx.count(("netsum", kind, rel, negate, spelling, rep), rel != "independent")
+                        ctx.bump(f"netsum_{rel}")
+                        try:
+                            la, da = _dense_sorted(a)
+                            lb, db = _dense_sorted(b)
+                        except Exception:
+                            ctx.bump("netsum_dense_failed")
+                            continue
+                        if la != lb:
+                            ctx.bump("netsum_outer_labels_differ")
+                            continue
+                        ref = da - db if negate else da + db
+                        share_a, share_b = a.copy(), b.copy()
+                        fa, fb, fsa, fsb = fingerprint(a), fingerprint(b), fingerprint(share_a), fingerprint(share_b)
+                        ids_a = {id(t) for t in a.tensor_map.values()}
+                        ids_b = {id(t) for t in b.tensor_map.values()}
+
+                        def call(x, y):
+                            if spelling == "operator":
+                                return (x - y) if negate else (x + y)
+                            if spelling == "ioperator":
+                                if negate:
+                                    x -= y
+                                else:
+                                    x += y
+                                return x
+                            if spelling in ("function", "function_inplace"):
+                                return qtn.tensor_network_ag_sum(x, y, negate=negate, inplace=inplace)
+                            return getattr(x, METHOD[kind] + ("_" if inplace else ""))(y, **({"negate": True} if negate else {}))
+
+                        try:
+                            with _WriteLog() as wl:
+                                r = call(a, b)
+                        except Exception as e:
+                            ctx.violation(f"netsum:raises:{rel}", f"network sum raised {type(e).__name__}", {**desc, "error": str(e)[:150]})
+                            continue
+                        key_tail = f"{'sub' if negate else 'add'}:{'inplace' if inplace else 'plain'}:{rel}"
+                        if inplace and r is not a:
+                            ctx.violation(f"netsum:inplace_returns_other:{key_tail}", "the in-place spelling does not return its receiver", desc)
+                        # ---- (2) oracle
+                        if not same or not inplace:
+                            if fingerprint(b) != fb or fingerprint(share_b) != fsb:
+                                ctx.violation(f"netsum:mutates_second_operand:{key_tail}", "the sum / difference of two networks changed its SECOND operand "
+                                              "(tensor data, labels or arrays shared with a copy of it)", desc)
+                        if not inplace and (fingerprint(a) != fa or fingerprint(share_a) != fsa):
+                            ctx.violation(f"netsum:mutates_first_operand:{key_tail}", "the plain sum / difference of two networks changed its first operand", desc)
+                        if inplace and fingerprint(share_a) != fsa:
+                            ctx.violation(f"netsum:writes_shared_array:{key_tail}", "the in-place sum wrote into arrays shared with a copy of the receiver", desc)
+                        rid = {id(t) for t in r.tensor_map.values()}
+                        if (rid & ids_b and not (same and inplace)) or (not inplace and rid & ids_a):
+                            ctx.violation(f"netsum:aliases:{key_tail}", "the result holds tensor objects of an operand", desc)
+                        if type(r) is not type(a):
+                            ctx.violation(f"netsum:class:{key_tail}", f"result is a {type(r).__name__}, operands are {type(a).__name__}", desc)
+                        try:
+                            lr, dr = _dense_sorted(r)
+                            ok = lr == la and dr.shape == ref.shape and np.allclose(dr, ref, atol=1e-9 * max(1.0, float(np.abs(ref).max())), rtol=0)
+                        except Exception:
+                            ok = False
+                        if not ok:
+                            ctx.violation(f"netsum:value:{key_tail}", "dense(result) differs from dense(a) +- dense(b) (numpy reference)", desc)
+                        if not inplace:
+                            try:
+                                l2, d2 = _dense_sorted(call(a, b))
+                                ok2 = l2 == la and np.allclose(d2, ref, atol=1e-9 * max(1.0, float(np.abs(ref).max())), rtol=0)
+                            except Exception:
+                                ok2 = False
+                            if not ok2:
+                                ctx.violation(f"netsum:second_call_differs:{key_tail}", "the same plain call a second time gives another value "
+                                              "(an operand was changed by the first call)", desc)
+                        # ---- (1) owners of the written objects
+                        if same:
+                            continue   # one object is both operands: the owner classes of the model coincide
+                        obs = []
+                        for o in wl.objs:
+                            if id(o) in ids_b:
+                                obs.append("OwnB")
+                            elif id(o) in ids_a:
+                                obs.append("OwnA")
+                            elif id(o) in rid:
+                                obs.append("OwnRes")
+                        cid += 1
+                        info[cid] = {**desc, "owners_of_written_objects": obs, "key": f"netsum:write_owners:{key_tail}"}
+                        cases.append((cid, f"owners_eqb (filter visible (agsum_writes {'true' if inplace else 'false'} {a.num_tensors}%nat "
+                                           f"{'true' if negate else 'false'})) [{'; '.join(obs)}]"))
+    failed, errors = _coq_cases_dedup(ctx, "agsum_writes", header, cases, shard=150)
+    for path, err in errors:
+        ctx.broken_obligation("correspondence:agsum_writes:" + path.split("/")[-1], err)
+    for c in failed:
+        d = dict(info[c])
+        ctx.violation(d.pop("key"), "the tensor objects written by the network sum are not the modelled ones (model: one write per site, to the "
+                      "result's tensor - the receiver's for the in-place spellings - and never to the second operand's)", d)
+
+
+def network_operators(ctx):
+    """the remaining operators of TensorNetwork (scalar `*`, `/`, unary `-`, `&`, `|`, `@`, `^`): operands (and copies
+    sharing their arrays) untouched by the plain spellings, value against numpy (a TEST, tolerance)."""
+    import quimb.tensor as qtn
+
+    rng = np.random.default_rng(ctx.seed + 41)
+    for it in range(ctx.n(6, 40)):
+        R, _ = make_receivers(ctx.seed * 100 + 50 + it)
+        for kind in ("TN", "MPS", "PEPS", "GENV"):
+            x = R[kind]()
+            y = permute_axes(x.copy(), rng).conj() if rng.integers(2) else x.conj()
+            lx, dx = _dense_sorted(x)
+            c = complex(int(rng.integers(2, 5)), int(rng.integers(-2, 3)))
+            OPS = {"mul": (lambda: x * c, lambda: dx * c), "rmul": (lambda: c * x, lambda: dx * c), "div": (lambda: x / c, lambda: dx / c),
+                   "neg": (lambda: -x, lambda: -dx), "and": (lambda: (x & y), None), "or": (lambda: (x | y), None),
+                   "matmul": (lambda: x @ y, lambda: np.vdot(dx, dx) if False else None)}
+            for nm, (f, ref) in OPS.items():
+                sx, sy = x.copy(), y.copy()
+                fx, fy, fsx, fsy = fingerprint(x), fingerprint(y), fingerprint(sx), fingerprint(sy)
+                desc = {"operator": nm, "class": kind, "scalar": repr(c)}
+                ctx.count(("netop", nm, kind, it), True)
+                try:
+                    r = f()
+                except Exception as e:
+                    ctx.bump("netop_rejected")
+                    continue
+                if (fingerprint(x), fingerprint(y), fingerprint(sx), fingerprint(sy)) != (fx, fy, fsx, fsy):
+                    ctx.violation(f"netop:mutates_operand:{nm}", f"TensorNetwork operator {nm} changed an operand", desc)
+                if nm != "or" and isinstance(r, qtn.TensorNetwork) and tensor_ids(r) & (tensor_ids(x) | tensor_ids(y)):
+                    ctx.violation(f"netop:aliases:{nm}", f"the result of TensorNetwork operator {nm} holds tensor objects of an operand", desc)
+                if ref is not None and ref() is not None:
+                    lr, dr = _dense_sorted(r)
+                    if lr != lx or not np.allclose(dr, ref(), atol=1e-9 * max(1.0, float(np.abs(dx).max()))):
+                        ctx.violation(f"netop:value:{nm}", f"TensorNetwork operator {nm}: value differs from numpy", desc)
+                if nm == "matmul":
+                    # <x|x> for y = conj(x) (stored in any axis order): the squared norm of the dense vector
+                    if not numbers_agree(complex(r), complex(np.vdot(dx, dx)), 1e-9):
+                        ctx.violation("netop:value:matmul", "x @ conj(x) differs from the squared norm of the dense tensor", desc)
+
+
 def all_subclasses(c):
     out = [c]
     for k in c.__subclasses__():
@@ -1081,6 +1655,10 @@ def run(ctx):
     ctx.stage(transposition_correspondence)
     ctx.stage(binop_write_correspondence)
     ctx.stage(binary_ops)
+    ctx.stage(transpose_like_correspondence)
+    ctx.stage(pair_functions)
+    ctx.stage(network_sum)
+    ctx.stage(network_operators)
     ctx.stage(behaviour)
 
 
